@@ -204,6 +204,7 @@ struct Dumper
       json::Array methods;
       json::Object consts;
       json::Object aliases;
+      json::Array statics;
       for( const auto* d : rd->decls() ) {
          const FunctionDecl* fd = nullptr;
          if( const auto* m = dyn_cast< CXXMethodDecl >( d ) )
@@ -236,6 +237,8 @@ struct Dumper
             methods.push_back( std::move( mo ) );
          }
          else if( const auto* vd = dyn_cast< VarDecl >( d ) ) {
+            if( vd->isStaticDataMember() )
+               statics.push_back( vd->getNameAsString() );
             if( vd->isStaticDataMember() && vd->getType()->isIntegralOrEnumerationType() ) {
                const Expr* init = vd->getAnyInitializer();
                if( init && !init->isValueDependent() ) {
@@ -253,6 +256,7 @@ struct Dumper
       }
       o[ "methods" ] = std::move( methods );
       o[ "consts" ] = std::move( consts );
+      o[ "statics" ] = std::move( statics );
       o[ "aliases" ] = std::move( aliases );
       records.find( key )->second = json::Value( std::move( o ) );
    }
@@ -311,6 +315,9 @@ struct Dumper
          o[ "cc" ] = std::move( ci );
       if( fd->isNoReturn() )
          o[ "noret" ] = true;
+      if( const auto* pt = fd->getType()->getAs< FunctionProtoType >() )
+         if( !isUnresolvedExceptionSpec( pt->getExceptionSpecType() ) && pt->isNothrow() )
+            o[ "nothrow" ] = true;
       if( const auto* m = dyn_cast< CXXMethodDecl >( fd ) ) {
          if( m->isStatic() )
             o[ "static" ] = true;
@@ -732,6 +739,9 @@ struct Dumper
       o[ "rt" ] = ty( f->getReturnType() );
       if( f->isNoReturn() )
          o[ "noret" ] = true;
+      if( const auto* pt = f->getType()->getAs< FunctionProtoType >() )
+         if( !isUnresolvedExceptionSpec( pt->getExceptionSpecType() ) && pt->isNothrow() )
+            o[ "nothrow" ] = true;
       json::Array ps;
       for( const auto* p : f->parameters() ) {
          json::Object po;
